@@ -139,15 +139,24 @@ def check(ctx):
             cfg = dict(cfg, objective='weighted', hook='observer')
             if kind == 'WCA':
                 cfg['n_agents'] = max(cfg['n_agents'], 3)
-            r = runpass.analyse_run(cfg, drv, props=['C03', 'C02', 'C20'])
-            bad = [i for p in ('C03', 'C02', 'C20') for i in r['issues'][p] if not i.get('known')] + r['machine']['issues']
+            CORR = {'clip-mismatch', 'pattern', 'schedule-mismatch', 'truth-flag', 'budget-table-mismatch'}
+
+            def issues_of(c_):
+                r_ = runpass.analyse_run(c_, drv, props=['C03', 'C02', 'C20'])
+                return [i for p in ('C03', 'C02', 'C20') for i in r_['issues'][p] if not i.get('known') and i['what'] not in CORR]
+            cfgs = [cfg]
             # single-agent task (optimisers that move agents in place re-use one array between evaluations)
             if kind not in ('WCA', 'GP'):
-                cfg1 = dict(cfg, n_agents=1, n_iter=4)
-                r1 = runpass.analyse_run(cfg1, drv, props=['C03', 'C02', 'C20'])
-                bad += [i for p in ('C03', 'C02', 'C20') for i in r1['issues'][p] if not i.get('known')] + r1['machine']['issues']
-            if bad:
-                C.issue('weighted-objective-run', 'oracle', dict(how='runlevel', cfg=cfg), detail=bad[:2])
+                cfgs.append(dict(cfg, n_agents=1, n_iter=4))
+            for c_ in cfgs:
+                bad = issues_of(c_)
+                if bad:
+                    # specific to the weighted objective only if the same task with a plain Function returning the same
+                    # values is fine (anything else belongs to the property that owns the optimizer's behaviour)
+                    plain = {i['what'] for i in issues_of(dict(c_, objective='weightedplain'))}
+                    own = [i for i in bad if i['what'] not in plain]
+                    if own:
+                        C.issue('weighted-objective-run', 'oracle', dict(how='runlevel', cfg=c_), detail=own[:2])
             C.case(key=('run', kind), nontrivial=True, kind='optimise-' + kind)
     finally:
         drv.close()
